@@ -80,13 +80,28 @@ theorem effectiveRows_spec (n : Nat) (limit : Int) :
     (limit < 0 → effectiveRows n limit = n)
     ∧ ((n : Int) ≤ limit → effectiveRows n limit = n)
     ∧ (0 ≤ limit → limit < (n : Int) → effectiveRows n limit = limit.toNat) := by
+  have hiff : Gen.Kernels.limitApplies limit n ↔ (limit ≥ 0 ∧ limit < (n : Int)) := by
+    unfold Gen.Kernels.limitApplies; exact Iff.rfl
   unfold effectiveRows
   refine ⟨?_, ?_, ?_⟩
-  · intro h; have : ¬ (0 ≤ limit ∧ limit < (n : Int)) := by omega
-    simp [this]
-  · intro h; have : ¬ (0 ≤ limit ∧ limit < (n : Int)) := by omega
-    simp [this]
-  · intro h1 h2; simp [h1, h2]
+  · intro h; rw [if_neg (by rw [hiff]; omega)]
+  · intro h; rw [if_neg (by rw [hiff]; omega)]
+  · intro h1 h2; rw [if_pos (hiff.mpr ⟨h1, h2⟩)]
+
+theorem earlyExit_iff (nrows ncols : Nat) :
+    Gen.Kernels.earlyExit nrows ncols ↔ (nrows = 0 ∨ ncols = 0) := by
+  unfold Gen.Kernels.earlyExit; omega
+
+theorem badIndex_iff (c w : Int) : Gen.Kernels.badIndex c w ↔ (c < 0 ∨ c ≥ w) := by
+  unfold Gen.Kernels.badIndex; exact Iff.rfl
+
+theorem any_badIndex_false (cols : List Int) (w : Nat) (hc : ∀ c ∈ cols, 0 ≤ c ∧ c < (w : Int)) :
+    cols.any (fun c => decide (Gen.Kernels.badIndex c (w : Int))) = false := by
+  rw [List.any_eq_false]
+  intro c hcm
+  have := hc c hcm
+  simp only [decide_eq_true_eq, badIndex_iff]
+  omega
 
 /-- **Column collection is the column-major transpose**: for tuple rows all of width `w` and
 indexes inside `0..w-1`, `result[i][j] = rows[j][columns[i]]` for the first `limit` rows. -/
@@ -98,17 +113,15 @@ theorem collect_spec [Inhabited α] (first : RowObj α) (rest : List (RowObj α)
       .ok (cols.map fun c =>
         ((first :: rest).take (effectiveRows (first :: rest).length limit)).map fun r => r.cells[c.toNat]!) := by
   have hfw : first.cells.length = w := (hw first (by simp)).2
-  have hany : cols.any (fun c => decide (c < 0 ∨ c ≥ ((first.cells.length : Nat) : Int))) = false := by
-    rw [List.any_eq_false]
-    intro c hcm
-    have := hc c hcm
-    simp only [decide_eq_true_eq, not_or]
-    omega
-  have hemp : cols.isEmpty = false := by
-    cases cols with
-    | nil => exact absurd rfl hne
-    | cons _ _ => rfl
-  simp only [collect, hemp, Bool.false_eq_true, if_false, hany, paths_agree]
+  have hany := any_badIndex_false cols first.cells.length (by rw [hfw]; exact hc)
+  have hee : ¬ Gen.Kernels.earlyExit ((first :: rest).length : Nat) (cols.length : Nat) := by
+    rw [earlyExit_iff]
+    have : cols.length ≠ 0 := by
+      cases cols with
+      | nil => exact absurd rfl hne
+      | cons _ _ => simp
+    simp [this]
+  simp only [collect, hee, if_false, hany, Bool.false_eq_true, paths_agree]
   have : pathN ((first :: rest).take (effectiveRows (first :: rest).length limit)) (cols.map Int.toNat)
       = some ((cols.map Int.toNat).map fun c =>
           ((first :: rest).take (effectiveRows (first :: rest).length limit)).map fun r => r.cells[c]!) := by
@@ -131,39 +144,45 @@ theorem collect_spec [Inhabited α] (first : RowObj α) (rest : List (RowObj α)
 theorem collect_oob_raises (first : RowObj α) (rest : List (RowObj α)) (cols : List Int) (limit : Int)
     (c : Int) (hc : c ∈ cols) (hbad : c < 0 ∨ (first.cells.length : Int) ≤ c) :
     collect (first :: rest) cols limit = .raises "IndexError" := by
-  have hemp : cols.isEmpty = false := by
-    cases cols with
-    | nil => cases hc
-    | cons _ _ => rfl
-  have hany : cols.any (fun c => decide (c < 0 ∨ c ≥ ((first.cells.length : Nat) : Int))) = true := by
+  have hee : ¬ Gen.Kernels.earlyExit ((first :: rest).length : Nat) (cols.length : Nat) := by
+    rw [earlyExit_iff]
+    have : cols.length ≠ 0 := by
+      cases cols with
+      | nil => cases hc
+      | cons _ _ => simp
+    simp [this]
+  have hany : cols.any (fun c => decide (Gen.Kernels.badIndex c ((first.cells.length : Nat) : Int))) = true := by
     rw [List.any_eq_true]
-    exact ⟨c, hc, by simpa using hbad⟩
-  simp only [collect, hemp, Bool.false_eq_true, if_false, hany, if_true]
+    refine ⟨c, hc, ?_⟩
+    simp only [decide_eq_true_eq, badIndex_iff]
+    omega
+  simp only [collect, hee, if_false, hany, if_true]
 
 /-- **Safety, partial**: if every collected row is a tuple at least as wide as the first row, no
 read leaves a row — whatever the indexes and the limit. -/
 theorem collect_safe_partial (rows : List (RowObj α)) (cols : List Int) (limit : Int)
     (h : ∀ first ∈ rows.head?, ∀ r ∈ rows, r.isTuple = true ∧ first.cells.length ≤ r.cells.length) :
     collect rows cols limit ≠ .oob := by
-  cases rows with
-  | nil => simp [collect]
-  | cons first rest =>
-    have hw := h first (by simp)
-    unfold collect
-    simp only
-    split
-    · intro hh; cases hh
-    · split
-      · intro hh; cases hh
-      · rename_i hany
+  unfold collect
+  by_cases hee : Gen.Kernels.earlyExit (rows.length : Nat) (cols.length : Nat)
+  · simp only [hee, if_true]; intro hh; cases hh
+  · simp only [hee, if_false]
+    cases rows with
+    | nil => exact absurd ((earlyExit_iff 0 cols.length).mpr (Or.inl rfl)) hee
+    | cons first rest =>
+      have hw := h first (by simp)
+      simp only
+      by_cases hany : cols.any (fun c => decide (Gen.Kernels.badIndex c ((first.cells.length : Nat) : Int))) = true
+      · simp only [hany, if_true]; intro hh; cases hh
+      · simp only [hany, Bool.false_eq_true, if_false]
+        have h1 : cols.any (fun c => decide (Gen.Kernels.badIndex c ((first.cells.length : Nat) : Int))) = false := by
+          cases hh : cols.any (fun c => decide (Gen.Kernels.badIndex c ((first.cells.length : Nat) : Int))) with
+          | false => rfl
+          | true => exact absurd hh hany
         have hin : ∀ c ∈ cols, 0 ≤ c ∧ c < (first.cells.length : Int) := by
           intro c hc
-          have h1 : cols.any (fun c => decide (c < 0 ∨ c ≥ ((first.cells.length : Nat) : Int))) = false := by
-            cases hh : cols.any (fun c => decide (c < 0 ∨ c ≥ ((first.cells.length : Nat) : Int))) with
-            | false => rfl
-            | true => exact absurd hh hany
           have := (List.any_eq_false.mp h1) c hc
-          simp only [decide_eq_true_eq, not_or] at this
+          simp only [decide_eq_true_eq, badIndex_iff] at this
           omega
         rw [paths_agree]
         have hs : (pathN ((first :: rest).take (effectiveRows (first :: rest).length limit))
@@ -196,31 +215,37 @@ theorem collect_nontuple_oob :
 theorem collect_empty (rows : List (RowObj α)) (cols : List Int) (limit : Int) :
     collect ([] : List (RowObj α)) cols limit = .ok (cols.map fun _ => [])
     ∧ (rows ≠ [] → collect rows [] limit = .ok []) := by
-  refine ⟨rfl, ?_⟩
-  intro h
-  cases rows with
-  | nil => exact absurd rfl h
-  | cons _ _ => simp [collect]
+  refine ⟨?_, ?_⟩
+  · have : Gen.Kernels.earlyExit (([] : List (RowObj α)).length : Nat) (cols.length : Nat) :=
+      (earlyExit_iff 0 cols.length).mpr (Or.inl rfl)
+    simp only [collect, this, if_true]
+  · intro _
+    have : Gen.Kernels.earlyExit (rows.length : Nat) (([] : List Int).length : Nat) :=
+      (earlyExit_iff rows.length 0).mpr (Or.inr rfl)
+    simp only [collect, this, if_true, List.map_nil]
+
+theorem widthStep_some (acc w : Nat) : widthStep acc (some w) = if w > acc then w else acc := by
+  unfold widthStep Gen.Kernels.widthUpdates
+  by_cases h : w > acc
+  · have : ((w : Int) > (acc : Int)) := by omega
+    simp only [this, if_true, h]
+  · have : ¬ ((w : Int) > (acc : Int)) := by omega
+    simp only [this, if_false, h]
 
 theorem foldl_width_ge (lens : List (Option Nat)) (acc : Nat) :
-    acc ≤ lens.foldl (fun acc l => match l with
-      | some w => if w > acc then w else acc
-      | none => acc) acc
-    ∧ ∀ w, some w ∈ lens → w ≤ lens.foldl (fun acc l => match l with
-      | some w => if w > acc then w else acc
-      | none => acc) acc := by
+    acc ≤ lens.foldl widthStep acc ∧ ∀ w, some w ∈ lens → w ≤ lens.foldl widthStep acc := by
   induction lens generalizing acc with
   | nil => simp
   | cons l ls ih =>
     cases l with
     | none =>
       obtain ⟨h1, h2⟩ := ih acc
-      refine ⟨by simpa using h1, ?_⟩
+      refine ⟨by simpa [widthStep] using h1, ?_⟩
       intro w hw
       simp only [List.mem_cons, reduceCtorEq, false_or] at hw
-      simpa using h2 w hw
+      simpa [widthStep] using h2 w hw
     | some v =>
-      simp only [List.foldl_cons]
+      simp only [List.foldl_cons, widthStep_some]
       by_cases hv : v > acc
       · simp only [hv, if_true]
         obtain ⟨h1, h2⟩ := ih v
@@ -240,22 +265,17 @@ theorem foldl_width_ge (lens : List (Option Nat)) (acc : Nat) :
         · exact h2 w hw
 
 theorem foldl_width_attained (lens : List (Option Nat)) (acc : Nat) :
-    lens.foldl (fun acc l => match l with
-      | some w => if w > acc then w else acc
-      | none => acc) acc = acc
-    ∨ some (lens.foldl (fun acc l => match l with
-      | some w => if w > acc then w else acc
-      | none => acc) acc) ∈ lens := by
+    lens.foldl widthStep acc = acc ∨ some (lens.foldl widthStep acc) ∈ lens := by
   induction lens generalizing acc with
   | nil => simp
   | cons l ls ih =>
     cases l with
     | none =>
       rcases ih acc with h | h
-      · left; simpa using h
-      · right; simp only [List.foldl_cons]; exact List.mem_cons_of_mem _ h
+      · left; simpa [widthStep] using h
+      · right; simp only [List.foldl_cons]; exact List.mem_cons_of_mem _ (by simpa [widthStep] using h)
     | some v =>
-      simp only [List.foldl_cons]
+      simp only [List.foldl_cons, widthStep_some]
       by_cases hv : v > acc
       · simp only [hv, if_true]
         rcases ih v with h | h
@@ -266,12 +286,16 @@ theorem foldl_width_attained (lens : List (Option Nat)) (acc : Nat) :
         · left; exact h
         · right; exact List.mem_cons_of_mem _ h
 
-/-- The display-width helper gives the longest rendered non-null value, but at least four. -/
+/-- The display-width helper gives the longest rendered non-null value, but at least four
+(`Gen.Kernels.widthFloor`, the constant in the source). -/
 theorem dataWidth_spec (lens : List (Option Nat)) :
     4 ≤ dataWidth lens
     ∧ (∀ w, some w ∈ lens → w ≤ dataWidth lens)
-    ∧ (dataWidth lens = 4 ∨ some (dataWidth lens) ∈ lens) :=
-  ⟨(foldl_width_ge lens 4).1, (foldl_width_ge lens 4).2, foldl_width_attained lens 4⟩
+    ∧ (dataWidth lens = 4 ∨ some (dataWidth lens) ∈ lens) := by
+  have hf : Gen.Kernels.widthFloor = 4 := rfl
+  unfold dataWidth
+  rw [hf]
+  exact ⟨(foldl_width_ge lens 4).1, (foldl_width_ge lens 4).2, foldl_width_attained lens 4⟩
 
 /-- Field extraction gives the dictionary's value, or null, for each requested field in order. -/
 theorem extract_spec (null : α) (fields : List String) (d : List (String × α)) :
